@@ -18,11 +18,12 @@ ASSUMPTIONS = ["for Parameter-valued arguments only unambiguous cases are judged
                "not judged for acceptance (it may hold an integral value) but a rejection must still be a JaqalError"]
 TIERS = {"quick": {"shards": 8, "budget_s": 40}, "thorough": {"shards": 16, "budget_s": 240}}
 REQUIRE = {"calls-on-a-definition-used-before": 20000, "definitions-used-before-variants-were-derived": 20, "calls-judged": 20000, "accepted": 2000, "rejected": 5000, "keyword-vs-positional": 5000, "idle-gates-checked": 20,
-           "stretched-gates-checked": 15, "stretched_gates-calls-with-update": 6, "stretch-factors-sampled": 100}
+           "stretched-gates-checked": 15, "stretched_gates-calls-with-update": 6, "stretched-idle-gates-with-custom-names": 20, "stretch-factors-sampled": 100}
 
 KINDS = ["QUBIT", "REGISTER", "INT", "FLOAT", "NONE"]
 VALUE_CLASSES = ["qubit", "register", "int", "intfloat", "float", "constI", "constFint", "constF", "pQ", "pR", "pI", "pF", "pN",
-                 "inf", "nan", "hugefloat", "constFinf", "npint", "npfloat", "npintfloat", "zero", "zerofloat", "none"]
+                 "inf", "nan", "hugefloat", "constFinf", "npint", "npfloat", "npintfloat", "zero", "zerofloat", "none",
+                 "constCint", "constCintf", "constCfrac"]
 
 
 def make_values():
@@ -39,6 +40,9 @@ def make_values():
         # numbers as numpy delivers them: the same integers and floats
         # values that are false in a truth test (a call must not mistake them for "no argument given")
         "zero": 0, "zerofloat": 0.0, "none": None,
+        # a constant defined through another constant has the number of that one
+        "constCint": Constant("cci", Constant("cci0", 3)), "constCintf": Constant("ccif", Constant("ccif0", 2.0)),
+        "constCfrac": Constant("ccf", Constant("ccf0", 2.5)),
         "npint": __import__("numpy").int64(3), "npfloat": __import__("numpy").float64(0.25), "npintfloat": __import__("numpy").float32(2.0),
     }
 
@@ -56,11 +60,11 @@ def fits(kind, vc):
     if kind == "INT":
         if vc == "pF":
             return None
-        return vc in ("int", "intfloat", "hugefloat", "constI", "constFint", "pI", "pN", "npint", "npintfloat", "zero", "zerofloat")
+        return vc in ("int", "intfloat", "hugefloat", "constI", "constFint", "pI", "pN", "npint", "npintfloat", "zero", "zerofloat", "constCint", "constCintf")
     if kind == "FLOAT":
         if vc in ("inf", "nan", "constFinf"):
             return None  # floats, but not finite numbers: the statement does not say
-        return vc in ("int", "intfloat", "hugefloat", "float", "constI", "constFint", "constF", "pI", "pF", "pN", "npint", "npfloat", "npintfloat", "zero", "zerofloat")
+        return vc in ("int", "intfloat", "hugefloat", "float", "constI", "constFint", "constF", "pI", "pF", "pN", "npint", "npfloat", "npintfloat", "zero", "zerofloat", "constCint", "constCintf", "constCfrac")
     raise ValueError(kind)
 
 
@@ -259,6 +263,13 @@ def judge_stretched(suffix, with_idle, order_seed, rng):
     fails = []
     base = gateset.make(idle=with_idle, logged=False)
     base = {k: v for k, v in base.items() if k not in ("prepare_all", "measure_all")}
+    custom = {}
+    if with_idle:
+        # idle gates with names of the caller's choosing (IdleGateDefinition(parent, name=...)), two of them for one parent
+        plain = [k for k, v in base.items() if not isinstance(v, IdleGateDefinition)]
+        for k_, nm in zip(random.Random(order_seed + 5).sample(plain, min(2, len(plain))) * 2, ("Wait_%s", "Hold_%s", "Rest_%s")):
+            custom[nm % k_] = IdleGateDefinition(base[k_], name=nm % k_)
+        base.update(custom)
     items = list(base.items())
     random.Random(order_seed).shuffle(items)
     if order_seed % 2:
@@ -351,7 +362,18 @@ def judge_stretched(suffix, with_idle, order_seed, rng):
                 fails.append(("stretched-idle-gate-missing", {"gate": name}))
             elif list(isg.used_qubits) != [] or isg.ideal_unitary is not None or len(isg.parameters) != len(g.parameters) + 1:
                 fails.append(("stretched-idle-gate-wrong", {"gate": name}))
+    for cname, cidle in custom.items():
+        # every gate handed in gets its variant, under its own name plus the suffix
+        isg = out.get(cname + suffix)
+        CUSTOM_IDLES[0] += 1
+        if isg is None or not isinstance(isg, IdleGateDefinition) or isg.name != cname + suffix:
+            fails.append(("stretched-idle-gate-missing:custom-idle-name", {"idle": cname, "keys": sorted(k for k in map(str, out) if "Wait" in k or "Hold" in k or "Rest" in k)}))
+        elif list(isg.used_qubits) != [] or len(isg.parameters) != len(cidle.parameters) + 1:
+            fails.append(("stretched-idle-gate-wrong:custom-idle-name", {"idle": cname}))
     return fails, n, nf
+
+
+CUSTOM_IDLES = [0]
 
 
 def shard(ctx):
@@ -427,6 +449,7 @@ def shard(ctx):
                     rec.violation(sig("C18", clause), detail, {"kind": "stretched", "suffix": suffix, "with_idle": with_idle, "order_seed": seed})
     rec.counters["definitions-used-before-variants-were-derived"] = USED_FIRST[0]
     rec.counters["stretched_gates-calls-with-update"] = UPDATE_CALLS[0]
+    rec.counters["stretched-idle-gates-with-custom-names"] = CUSTOM_IDLES[0]
     monitors.report_contracts(rec)
 
 
